@@ -165,7 +165,17 @@ func (g *c11Gen) fieldElems() []amlFieldElem {
 	n := rapid.IntRange(0, 5).Draw(g.t, "nelems")
 	var out []amlFieldElem
 	for i := 0; i < n; i++ {
-		switch rapid.IntRange(0, 5).Draw(g.t, "elemk") {
+		switch rapid.IntRange(0, 7).Draw(g.t, "elemk") {
+		case 6:
+			out = append(out, amlFieldElem{K: "connbuf", Data: rapid.SliceOfN(rapid.Byte(), 0, 30).Draw(g.t, "conndata"), W: g.width()})
+		case 7:
+			// connection by name: refers to an earlier named field of this list if any
+			for _, e := range out {
+				if e.K == "named" {
+					out = append(out, amlFieldElem{K: "connname", Name: e.Name})
+					break
+				}
+			}
 		case 0:
 			out = append(out, amlFieldElem{K: "reserved", Bits: uint32(rapid.SampledFrom([]int{1, 7, 8, 63, 64, 0xfff, 0x1000, 0xfffff}).Draw(g.t, "rbits")), W: g.width()})
 		case 1:
